@@ -361,8 +361,10 @@ class Sim:
             out = self.log
             self.log = []
             if st["state"] == "busy":
+                # gevent: a wait on an already-set Event blocks until a still pending notifier of that event has
+                # run (fairness); it is released in the next loop turn, which after_loop() checks
                 if was_done:
-                    self.v("wait", "wait on finished job serial %d blocked" % j.serial)
+                    self.done_before_loop.add(j.serial)
                 return out + [["blocked"]]
             return out
         if k == "I":
